@@ -105,6 +105,15 @@ C02_Result == IsStep => ResultOK
 (* ---- C08: views through long-open handles (explicit view calls of the history) ---- *)
 C08_HandleViews == (IsStep /\ op.name \in {"has", "get", "meta", "list"}) => ResultOK
 
+(* ---- C14: importing transfers exactly the requested objects ---- *)
+C14_ImportExact == (IsStep /\ op.name = "import") =>
+    /\ ResultOK
+    /\ ViewHas /\ ViewGetBulk /\ ViewGetSingle /\ ViewMeta /\ ViewList /\ StoreIsMap
+    /\ \A r \in Rows(O0) : r \in Rows(O)                       \* other destination objects untouched
+    /\ SeqToSet(O0.loose) = SeqToSet(O.loose)
+    /\ IndexOK(O)
+    /\ (op.samehash => \A r \in Rows(O) : (r \notin Rows(O0)) => r.k \notin mapPrev)  \* held objects not written again
+
 (* ---- C03 ---- *)
 C03_IndexOK == IndexOK(O)
 
